@@ -42,8 +42,11 @@ type peerSpec struct {
 	Beyond      respSpec   `json:"beyond"`            // behaviour for heights above the canonical tip (inflated status)
 	Status2     string     `json:"status2,omitempty"` // optional later unsolicited status ("true"|"stale"|"inflated")
 	Status2At   int        `json:"s2at,omitempty"`
-	JoinAt      int        `json:"join,omitempty"` // driver tick at which the peer connects (0: from the start)
-	Push        *pushSpec  `json:"push,omitempty"` // pushes unsolicited blocks for heights requested from OTHER peers
+	// Flaky: answers every request until its outstanding requests have dropped to zero at least once (it has served a
+	// whole batch), and nothing it is asked afterwards
+	Flaky  bool      `json:"flaky,omitempty"`
+	JoinAt int       `json:"join,omitempty"` // driver tick at which the peer connects (0: from the start)
+	Push   *pushSpec `json:"push,omitempty"` // pushes unsolicited blocks for heights requested from OTHER peers
 }
 
 // pushSpec: whenever the node sends a BlockRequest for a height >= initial+From to some other peer, this peer pushes
@@ -160,7 +163,8 @@ func genScenario(t *rapid.T, reactor string, thorough bool) *scenario {
 	nHonest := rapid.SampledFrom([]int{1, 1, 1, 2}).Draw(t, "nhonest")
 	nPartial := rapid.SampledFrom([]int{0, 0, 0, 1}).Draw(t, "npartial")
 	nLiars := rapid.SampledFrom([]int{0, 1, 1, 2, 2, 2, 3, 3, 3, 4}).Draw(t, "nliars")
-	sc.Slow = nLiars > 0 && rapid.IntRange(0, 79).Draw(t, "slow") == 37
+	// behaviours that cost the peer timeout (3 s in this harness, see TestMain)
+	sc.Slow = nLiars > 0 && rapid.SampledFrom([]int{0, 0, 0, 0, 0, 0, 0, 0, 0, 1}).Draw(t, "slow") == 1
 	if thorough && nLiars > 0 && !sc.Slow {
 		sc.Slow = rapid.IntRange(0, 39).Draw(t, "slow2") == 17
 	}
@@ -254,6 +258,25 @@ func genScenario(t *rapid.T, reactor string, thorough bool) *scenario {
 		}
 		sc.Peers = append(sc.Peers, ps)
 	}
+	// a peer whose behaviour changes over time: faithful for a while, silent afterwards
+	switch rapid.SampledFrom([]string{"", "", "", "", "", "", "late-inflate", "flaky"}).Draw(t, "phasechange") {
+	case "late-inflate":
+		// announces less than it has, serves what it is asked, and once that is done claims blocks above the tip,
+		// for which it then answers nothing
+		ps := peerSpec{Role: "liar", Status: rapid.SampledFrom([]string{"true", "stale"}).Draw(t, "listatus"), StatusArg: rapid.IntRange(1, 3).Draw(t, "liarg"),
+			Status2: "inflated", Status2At: rapid.IntRange(40, 90).Draw(t, "liat"),
+			Beyond: respSpec{Kind: rapid.SampledFrom([]string{"silence", "noblock"}).Draw(t, "libeyond")}}
+		for h := 0; h < n; h++ {
+			ps.Resp = append(ps.Resp, genResp(t, "right", "liresp"))
+		}
+		sc.Peers = append(sc.Peers, ps)
+	case "flaky":
+		ps := peerSpec{Role: "liar", Status: "true", Flaky: true, Beyond: respSpec{Kind: "silence"}}
+		for h := 0; h < n; h++ {
+			ps.Resp = append(ps.Resp, genResp(t, "right", "flresp"))
+		}
+		sc.Peers = append(sc.Peers, ps)
+	}
 	// recompute Slow from what was actually planted
 	sc.Slow = false
 	for _, p := range sc.Peers {
@@ -262,7 +285,10 @@ func genScenario(t *rapid.T, reactor string, thorough bool) *scenario {
 				sc.Slow = true
 			}
 		}
-		if p.Status == "inflated" && isSlowKind(p.Beyond.Kind) {
+		if (p.Status == "inflated" || p.Status2 == "inflated") && isSlowKind(p.Beyond.Kind) {
+			sc.Slow = true
+		}
+		if p.Flaky {
 			sc.Slow = true
 		}
 	}
